@@ -65,7 +65,7 @@ def run(ctx):
         if i % 3 == 0:
             g, _, _ = gen.consistent_graph(rng, max_nodes=6)    # carries None annotations
         else:
-            g = gen.random_graph(rng)
+            g = gen.random_graph(rng, share_p=0.2)
         case = {"op": "dict", "graph": g}
         ctx.case(case); ctx.count("graphs")
         try:
